@@ -251,8 +251,27 @@ def run(chk):
             acases.append(evalsrc_case(src, binds=[("l", vlist([vi(i % 7) for i in range(n)]))], ufuncs=[], std=False))
             alabels.append("%s with %d elements" % (src, n))
             akeyed.append(False)
+    # more than one level per element, and a seed that is deep already: fewer than 1000 elements suffice to pass the bound
+    # (these are also compared with the model, which applies the same bound after every step)
+    n_tied = len(acases)
+    for n in [249, 250, 251, 334, 500, 999]:
+        for src in ["size(l.reduce(a, x, [[[[a]]]], 0))", "size(l.reduce(a, x, [[a]], []))", "size(l.reduce(a, x, {'k': {'j': [a]}}, {}))",
+                    "size(l.reduce(a, x, [a], l.reduce(b, y, [b], l.reduce(c, z, [c], [0]))))",
+                    "size(l.reduce(a, x, [a], l.reduce(b, y, [[b]], [])))"]:
+            acases.append(evalsrc_case(src, binds=[("l", vlist([vi(i % 7) for i in range(n)]))], ufuncs=[], std=False))
+            alabels.append("%s with %d elements" % (src, n))
+            akeyed.append(False)
+    deep12 = "[[[[[[[[[[[[a]]]]]]]]]]]]"
+    for src in ["l.reduce(a, x, %s, 0) == l.reduce(a, x, %s, 1)" % (deep12, deep12), "size(l.reduce(a, x, %s, 0))" % deep12]:
+        acases.append(evalsrc_case(src, binds=[("l", vlist([vi(i % 7) for i in range(999)]))], ufuncs=[], std=False))
+        alabels.append("%s with 999 elements" % src)
+        akeyed.append(False)
+    amodel = run_model(acases[n_tied:])
     for prof in ("debug", "release"):
         aimpl = run_impl(acases, prof, isolate=True, timeout=900)
+        for lab, c, r, m in zip(alabels[n_tied:], acases[n_tied:], aimpl[n_tied:], amodel):
+            if not is_dead(r) and m != "UNMOD" and m != r:
+                chk.tie_broken("reduce accumulators", dict(label=lab, impl=r[:200], model=m[:200], profile=prof))
         for lab, c, r, keyed in zip(alabels, acases, aimpl, akeyed):
             if is_dead(r):
                 chk.violation("a value nested by accumulation exhausts the stack when it is cloned, compared or dropped (%s build)" % prof,
